@@ -26,7 +26,7 @@ func hBit(name string, lo, hi uint64) uint64 {
 }
 
 //vf:unwind 300
-//vf:shards 4
+//vf:shards 3
 func VfC18_FlagSets() {
 	which := vfChoice("type", 3)
 	switch which {
@@ -37,7 +37,7 @@ func VfC18_FlagSets() {
 		// only declared members (undefined bits have no keyword)
 		vfAssume(!strings.HasPrefix(enum.DIFlag(f1).String(), "DIFlag("))
 		flags := enum.DIFlag(f1 | acc)
-		if vfTier() > 0 {
+		{
 			f2 := hBit("f2", uint64(enum.DIFlagFirst), uint64(enum.DIFlagLast))
 			vfAssume(!strings.HasPrefix(enum.DIFlag(f2).String(), "DIFlag("))
 			flags |= enum.DIFlag(f2)
